@@ -8,6 +8,7 @@ package main
 // is only a candidate (the full quantified query is then also tried, and counterexamples are replayed).
 
 import (
+	"math/big"
 	"strings"
 )
 
@@ -77,6 +78,7 @@ type idxPattern struct {
 	base *Term // nil: the bound variable itself is the index
 	arr  *Sort // sort of the indexed array
 	root []*Term
+	mul  *Term // index is base + var*mul (mul a constant) when non-nil
 }
 
 // arrayRoots: the base arrays below store chains / ite merges of an array term.
@@ -122,10 +124,11 @@ func collectPatterns(body *Term, b *Term) []idxPattern {
 					out = append(out, idxPattern{base: ix.Args[0], arr: as, root: rootsOf(t.Args[0])})
 				} else if ix.Args[0] == b && !containsVar(ix.Args[1], b) {
 					out = append(out, idxPattern{base: ix.Args[1], arr: as, root: rootsOf(t.Args[0])})
-				} else if ix.Args[0].Op == "bvadd" && len(ix.Args[0].Args) == 2 && ix.Args[0].Args[1] == b && ix.Args[1].Op == "bv" {
-					// (base + i) + c
-					base := ix.Args[0].Args[0]
-					_ = base
+				} else if m := ix.Args[1]; m.Op == "bvmul" && len(m.Args) == 2 && m.Args[0] == b && m.Args[1].Op == "bv" && !containsVar(ix.Args[0], b) {
+					// base + i*c
+					out = append(out, idxPattern{base: ix.Args[0], arr: as, root: rootsOf(t.Args[0]), mul: m.Args[1]})
+				} else if m := ix.Args[0]; m.Op == "bvmul" && len(m.Args) == 2 && m.Args[0] == b && m.Args[1].Op == "bv" && !containsVar(ix.Args[1], b) {
+					out = append(out, idxPattern{base: ix.Args[1], arr: as, root: rootsOf(t.Args[0]), mul: m.Args[1]})
 				}
 			}
 		}
@@ -289,8 +292,24 @@ func (f *TF) instantiate(t *Term, pos bool, qm map[*Term]bool, ground *groundIdx
 					}
 					if p.base == nil {
 						add(g)
-					} else if g.S.K == KBV {
+					} else if g.S.K == KBV && p.mul == nil {
 						add(f.Sub(g, p.base))
+					} else if g.S.K == KBV {
+						d := f.Sub(g, p.base)
+						if d.Op == "bvmul" && len(d.Args) == 2 && d.Args[1] == p.mul {
+							add(d.Args[0])
+						} else if d.Op == "bv" && p.mul.Val.Sign() > 0 {
+							q, r := new(big.Int).QuoRem(d.Val, p.mul.Val, new(big.Int))
+							if r.Sign() == 0 {
+								add(f.BV(d.S.W, q))
+							}
+						} else if d.Op == "bvadd" && len(d.Args) == 2 && d.Args[0].Op == "bvmul" && d.Args[0].Args[1] == p.mul && d.Args[1].Op == "bv" {
+							// x*c + k with k a multiple of c
+							q, r := new(big.Int).QuoRem(d.Args[1].Val, p.mul.Val, new(big.Int))
+							if r.Sign() == 0 {
+								add(f.Add(d.Args[0].Args[0], f.BV(d.S.W, q)))
+							}
+						}
 					}
 				}
 			}
@@ -348,7 +367,7 @@ func (f *TF) groundQuery(asserts []*Term) (out []*Term, instantiated bool, remai
 		sk[i] = f.skolemize(a, true, qm, &skolems)
 	}
 	cur := sk
-	for round := 0; round < 2; round++ {
+	for round := 0; round < 3; round++ {
 		ground := groundIndexTerms(cur)
 		next := make([]*Term, len(sk))
 		left := false
@@ -396,4 +415,31 @@ func (f *TF) splitConj(t *Term) []*Term {
 		}
 	}
 	return []*Term{t}
+}
+
+// freeBoundVars: does t mention a quantifier-bound variable that is not bound inside t?
+func freeBoundVars(t *Term) bool {
+	var rec func(t *Term, bound map[*Term]bool) bool
+	rec = func(t *Term, bound map[*Term]bool) bool {
+		if isBoundVar(t) {
+			return !bound[t]
+		}
+		if t.Op == "forall" || t.Op == "exists" {
+			nb := map[*Term]bool{}
+			for k := range bound {
+				nb[k] = true
+			}
+			for _, b := range t.Bound {
+				nb[b] = true
+			}
+			bound = nb
+		}
+		for _, a := range t.Args {
+			if rec(a, bound) {
+				return true
+			}
+		}
+		return false
+	}
+	return rec(t, map[*Term]bool{})
 }
